@@ -770,12 +770,21 @@ def _ifexp_cases(expr, tests=()):
 
 
 def _attr_defs(prog, ci, attr):
+    """(method, assignment) pairs that store self.<attr>; the stored value is given with private helpers expanded and
+    temporaries removed, so that what it is computed from can be read off"""
+    from ..inline import inlined
+    from ..astutil import inline_single_defs
     out = []
     for name, fs in ci.methods.items():
         f = fs[-1]
-        for st in walk_function(f.node):
+        if not any(isinstance(st, ast.Assign) and any(is_self_attr(t, attr) for t in st.targets) for st in walk_function(f.node)):
+            continue
+        fx = inlined(prog, f)
+        for st in walk_function(fx.node):
             if isinstance(st, ast.Assign) and any(is_self_attr(t, attr) for t in st.targets):
-                out.append((f, st))
+                st2 = ast.Assign(targets=st.targets, value=inline_single_defs(fx.node, st.value), lineno=st.lineno,
+                                 col_offset=st.col_offset)
+                out.append((f, st2))
     return out
 
 
